@@ -280,14 +280,24 @@ def parse_rvalue(s):
                 name, val = part.split(':', 1)
                 fields.append((name.strip(), parse_operand(val)))
         return Rvalue('adt_named', [f[1] for f in fields], (m3.group(1).strip(), [f[0] for f in fields]))
-    m4 = re.match(r'^([\w:<>, &\'\[\];]+?)\((.*)\)$', s, re.S)
-    if m4:
-        inner = m4.group(2).strip()
-        parts = split_top(inner) if inner else []
-        try:
-            return Rvalue('adt_tuple', [parse_operand(p) for p in parts], m4.group(1).strip())
-        except MirError:
-            return Rvalue('unsupported', extra=s)
+    if s.endswith(')') and not s.startswith('('):
+        # tuple-like ADT constructor `Path::<generics>::Variant(op, ..)`: the argument list is the LAST balanced (...) group
+        depth, open_idx = 0, None
+        for i in range(len(s) - 1, -1, -1):
+            if s[i] == ')':
+                depth += 1
+            elif s[i] == '(':
+                depth -= 1
+                if depth == 0:
+                    open_idx = i
+                    break
+        if open_idx:
+            inner = s[open_idx + 1:-1].strip()
+            parts = split_top(inner) if inner else []
+            try:
+                return Rvalue('adt_tuple', [parse_operand(p) for p in parts], s[:open_idx].strip())
+            except MirError:
+                return Rvalue('unsupported', extra=s)
     if re.match(r'^[\w:<>, &\'\[\];\(\)]+$', s) and not s.endswith(')'):
         return Rvalue('adt_tuple', [], s)   # unit-like variant / struct, e.g. `Option::<T>::None`
     return Rvalue('unsupported', extra=s)
@@ -408,6 +418,7 @@ class Program:
         self.promoted = {}            # '<fn name>::promoted[N]' -> Function (constant body)
         self._scan(text)
         self._impl_headers = {}
+        self._ref_impls = {}
 
     def _scan(self, text):
         lines = text.split('\n')
@@ -482,6 +493,7 @@ class Program:
                 if ' for ' in body:
                     trait, ty = body.split(' for ', 1)
                     res = (self._base(trait), self._base(ty))
+                    self._ref_impls[f.impl_loc] = ty.strip().startswith('&')
                 else:
                     res = (None, self._base(body))
         except OSError:
@@ -492,11 +504,13 @@ class Program:
     @staticmethod
     def _base(ty):
         ty = ty.strip()
+        ty = re.sub(r"^&('\w+\s+)?(mut\s+)?", '', ty)
         ty = re.sub(r'<.*$', '', ty)
         return ty.split('::')[-1].strip()
 
-    def find_method(self, type_name, method, trait=None):
-        """Definitions of `method` in an `impl [Trait for] type_name` block (base names, generics stripped)."""
+    def find_method(self, type_name, method, trait=None, is_ref=None):
+        """Definitions of `method` in an `impl [Trait for] type_name` block (base names, generics stripped); `is_ref`
+        selects between `impl Trait for T` and `impl Trait for &T` when both exist."""
         out = []
         for f in self.by_last.get(method, []):
             if '{closure#' in f.name or f.impl_loc is None:
@@ -506,6 +520,10 @@ class Program:
                 continue
             if h[1] == type_name and (h[0] == trait if trait is not None else True):
                 out.append(f)
+        if is_ref is not None and len(out) > 1:
+            sel = [f for f in out if self._ref_impls.get(f.impl_loc, False) == is_ref]
+            if sel:
+                out = sel
         return out
 
     def find_free(self, suffix):
